@@ -36,6 +36,11 @@ def load_known():
     return out
 
 
+def _tail(out):
+    i = out.find("Error:")
+    return out[i:i + 1500] if i >= 0 else out[-1500:]
+
+
 class Report:
     def __init__(self, pid, tier, level="model_checking"):
         self.pid = pid
@@ -68,7 +73,7 @@ class Report:
                               "violation": res.get("violation")})
         if not res.get("machinery_ok"):
             self.machinery("TLC run %s failed: %s" % (label, res.get("fatal") or ("timeout" if res.get("timed_out") else "rc=%s" % res.get("rc"))),
-                           res.get("out", "")[-3000:])
+                           _tail(res.get("out", "")))
 
     def count(self, n=1):
         self.evaluations += n
@@ -114,8 +119,11 @@ class Report:
         path = os.path.join(REPLAYS, "%s-%s.json" % (self.pid, h))
         dump_json(path, {"property": self.pid, "key": key, "what": what, "replay": replay})
         self.violations.append({"key": key, "what": what, "path": path, "count": 1})
-        print("VIOLATION property=%s replay=%s" % (self.pid, path))
-        print("  key=%s %s" % (key, what))
+        if len(self.violations) <= 12:
+            print("VIOLATION property=%s replay=%s" % (self.pid, path))
+            print("  key=%s %s" % (key, what))
+        elif len(self.violations) == 13:
+            print("  ... further violations are counted in the evidence file and written to replays/ without a line each")
         return True
 
     # --- output -------------------------------------------------------------------------
@@ -153,6 +161,7 @@ class Report:
             print("MACHINERY-FAILURE property=%s (%d); no verdict" % (self.pid, len(self.machinery_errors)))
             return 2
         if self.violations:
+            print("FAILED property=%s tier=%s violations=%d (distinct keys)" % (self.pid, self.tier, len(self.violations)))
             return 1
         print("OK property=%s tier=%s states=%d traces=%d evaluations=%d nontrivial=%d wall=%.1fs" % (
             self.pid, self.tier, self.states, self.traces, self.evaluations, len(self.nontrivial), wall))
